@@ -727,10 +727,12 @@ def dict_interchange(ctx, P, S, rule="SCHEMA-DICT"):
             if len(a) >= 2 and a[1].startswith('"'):
                 keys_read[_s(a[1])] = a
         conv = {}
+        checks = []
         for l, o, r, n in FR.assigns:
             mm = re.match(r"table_read_column_array\((\w+)_input, (\w+), &(\w+), (\w+)\)", r)
             if mm:
                 conv[mm.group(1)] = (mm.group(2), mm.group(3))
+                checks.append((mm.group(1), mm.group(3), mm.group(4), n))
             mo = re.match(r"table_read_offset_array\((\w+)_input, &(\w+), (\w+), (\w+)\)", r)
             if mo:
                 conv[mo.group(1)] = ("offset", mo.group(3))
@@ -755,6 +757,15 @@ def dict_interchange(ctx, P, S, rule="SCHEMA-DICT"):
                 and conv.get(col, (None, None))[1] == col + "_length" and conv.get(col + "_offset", (None, None)) == ("offset", col + "_length")
             ctx.ob(rule, "%s|read|%s" % (t, col), ok, whereR, "keys \"%s\"/\"%s_offset\" converted (%s, offsets checked against %s_length); found %s / %s"
                    % (col, col, NPY_TYPE[elem][0], col, conv.get(col), conv.get(col + "_offset")))
+        # every length is established once (first conversion, check off) and every later array is compared with it
+        for lenvar in sorted({c[1] for c in checks}):
+            seq = sorted([c for c in checks if c[1] == lenvar], key=lambda c: c[3].b)
+            flags = [c[2] for c in seq]
+            okc = flags[:1] in (["false"], ["0"]) and all(f in ("true", "1") for f in flags[1:])
+            ctx.ob(rule, "%s|read|length-check|%s" % (t, lenvar), okc, FR.loc(seq[0][3]),
+                   "`%s` set by %s, compared for %s" % (lenvar, seq[0][0], [c[0] for c in seq[1:]]) if okc else
+                   "length checks for `%s`: %s: an array of another length is accepted and %s rows are then copied from shorter buffers"
+                   % (lenvar, [(c[0], c[2]) for c in seq], lenvar))
         # append_columns slots: argument text mentions the like-named column
         if app and pnames:
             a = app[0][0]
